@@ -18,10 +18,23 @@ Scheduling (resolves every race; the Gallina model `Equalizer/EqModel.v` follows
     late            the worker's `put` of the result is withheld and lands at the moment the parent kills the worker
     slow:<d>        the worker's `put` lands d seconds after the worker took the task
     drops           the worker's `put` is lost in transit (what `mp.Queue` does with an unpicklable result)
-* a worker that is killed while idle dies inside `get(True, 0.05)` on the task queue, i.e. holding that queue's read
-  lock (`multiprocessing.Queue.get` polls under `_rlock`): the queue is poisoned, no later worker can take a task
-  from it (observed on real processes)
-    dies_before     the worker dies before taking this task from the queue (once; the task stays queued)
+    unloadable      the worker's answer arrives, but the parent's `get` raises while loading it (what `mp.Queue.get`
+                    does with an item that pickles in the worker and does not unpickle in the parent, e.g. an
+                    exception class whose __init__ takes more arguments than it hands to Exception.__init__)
+    put_raises      the worker's `put` of its result raises: the real worker loop answers `(False, message)` instead
+    dies_before     the worker dies, idle, before taking this task from the queue (once; the task stays queued)
+* where an idle worker dies.  An idle worker spends its time in the last BLOCKING call it made (`parked_on`):
+  `Queue.get(True, t)` with t > 0 or `Event.wait(t)` with t != 0; non-blocking calls (`is_set()`, `get(False)`,
+  `wait(0)`) do not move it.  A worker that dies while idle - killed by the parent at the timeout (`drops`) or by
+  somebody else between two replays (`dies_before`) - dies there (an idle loop that blocks both on an event and on a
+  queue is hit inside `Event.wait`, the place with the worse consequence):
+    - inside `get(True, 0.05)` on the task queue a killed worker holds that queue's read lock
+      (`multiprocessing.Queue.get` polls under `_rlock`): the queue is poisoned, no later worker can take a task from
+      it (observed on real processes);
+    - inside `Event.wait(t)` it is a registered sleeper of the event's condition (`multiprocessing.Condition.wait`
+      releases `_sleeping_count` and only a sleeper that wakes up releases `_woken_count`): the next `Event.set()` -
+      `notify_all()` - acquires `_woken_count` once per registered sleeper and blocks forever, holding the condition's
+      lock (multiprocessing/synchronize.py; observed on real processes with the idle loop of seeded/C13_m6).
 """
 import multiprocessing as _real_mp
 import os as _real_os
@@ -66,6 +79,7 @@ class Sim(object):
         self.worker = None        # fake process whose code is running now (None: parent)
         self.max_live = 0
         self.frozen = None        # snapshot taken when the parent blocks forever
+        self.why = None           # ... and where it blocks
         self.poll_limit = 60      # polls for one task after which the parent is declared stuck (timeouts in the cases are <= 5 s)
 
     def beh(self, rid):
@@ -117,9 +131,20 @@ class FakeEvent(object):
     def __init__(self, sim):
         self.sim = sim
         self.flag = False
+        self.dead_sleepers = 0    # processes that died inside wait(): registered with the condition for ever
+
+    def abandoned(self, w, killed):
+        """worker w died while parked in wait()"""
+        self.dead_sleepers += 1
+        self.sim.events.append(['died-in-event-wait', w.ordinal])
 
     def set(self):
         self.flag = True
+        if self.dead_sleepers:
+            # notify_all() waits for every registered sleeper to wake up; a dead one never does
+            self.sim.frozen = self.sim.snapshot()
+            self.sim.why = 'Event.set() waits for a sleeper that died inside Event.wait()'
+            raise SimDeadlock(self.sim.why)
 
     def clear(self):
         self.flag = False
@@ -134,15 +159,19 @@ class FakeEvent(object):
         return self.flag
 
     def wait(self, timeout=None):
+        w = self.sim.worker
+        if w is not None and timeout != 0 and not self.flag:
+            w.parked_on = w.parked_event = self      # a blocking call: this is where the idle worker sleeps
         return self.is_set()
 
 
 class _Item(object):
-    __slots__ = ('x', 'fired')
+    __slots__ = ('x', 'fired', 'unloadable')
 
-    def __init__(self, x):
+    def __init__(self, x, unloadable=False):
         self.x = x
         self.fired = False      # dies_before already happened for this queue entry
+        self.unloadable = unloadable    # the reader's get() raises while loading it
 
 
 class FakeQueue(object):
@@ -169,6 +198,17 @@ class FakeQueue(object):
     def qsize(self):
         return len(self.items)
 
+    def abandoned(self, w, killed):
+        """worker w died while parked in get(True, t): a killed one holds the read lock"""
+        if killed:
+            self.poisoned = True
+
+    def _take(self):
+        it = self.items.pop(0)
+        if it.unloadable:
+            raise TypeError('boom-unpickle')
+        return it.x
+
     def put_nowait(self, x):
         self.put(x)
 
@@ -183,6 +223,10 @@ class FakeQueue(object):
             sim.polls.append(0)
             return
         b = sim.beh(w.playing)              # worker answers
+        if b == 'put_raises' and not w.put_refused:
+            w.put_refused = True
+            raise ValueError('boom-put')
+        w.put_refused = False
         w.playing = None
         if b == 'late':
             w.state, w.held, w.held_q = 'hung', x, self
@@ -192,13 +236,14 @@ class FakeQueue(object):
             raise WorkerBusy()
         if b == 'drops':
             return
-        self.items.append(_Item(x))
+        self.items.append(_Item(x, unloadable=(b == 'unloadable')))
 
     def get(self, block=True, timeout=None):
         sim = self.sim
         w = sim.worker
         if w is not None:                   # worker polls for a task (real timeout 50 ms: no modelled time)
-            w.waiting_on = self
+            if block and timeout != 0:
+                w.parked_on = self          # a blocking call: this is where the idle worker sleeps
             if self.items and not self.poisoned:
                 it = self.items[0]
                 x = it.x
@@ -207,7 +252,7 @@ class FakeQueue(object):
                     it.fired = True
                     raise WorkerDiesBefore()
                 self.items.pop(0)
-                w.waiting_on = None
+                w.parked_on = w.parked_event = None
                 w.served.append(rid)
                 w.took_at = sim.clock
                 return x
@@ -221,7 +266,7 @@ class FakeQueue(object):
                 raise SimDeadlock('the parent polls for ever')
         sim.turn_all()
         if self.items:
-            return self.items.pop(0).x
+            return self._take()
         if not block:
             raise queue.Empty()
         if timeout is None:
@@ -234,12 +279,12 @@ class FakeQueue(object):
                 sim.clock = max(sim.clock, min(p.ready for p in busy))
                 sim.turn_all()
                 if self.items:
-                    return self.items.pop(0).x
+                    return self._take()
             raise SimDeadlock('get() without timeout')
         sim.clock += timeout
         sim.turn_all()
         if self.items:
-            return self.items.pop(0).x
+            return self._take()
         raise queue.Empty()
 
 
@@ -258,7 +303,9 @@ class FakeProcess(object):
         self.ready = 0
         self.took_at = 0
         self.deaf = False
-        self.waiting_on = None    # queue this worker is polling while idle
+        self.parked_on = None     # queue / event on which this worker sleeps while idle (its last blocking call)
+        self.parked_event = None  # event it has slept on since it last took a task
+        self.put_refused = False
         self.playing = None
         self.yield_requested = False
         self.saw_flag = False
@@ -313,6 +360,10 @@ class FakeProcess(object):
         pass
 
     # -- simulator side
+    def deathbed(self):
+        """where an idle worker is when it dies: an idle loop that blocks in several places is hit in Event.wait"""
+        return self.parked_event or self.parked_on
+
     def state_name(self):
         return self.state if self.state != 'dead' else 'dead:' + self.how
 
@@ -328,8 +379,8 @@ class FakeProcess(object):
             return
         if sig not in (signal.SIGTERM, signal.SIGKILL, signal.SIGINT):
             return
-        if self.state == 'idle' and self.waiting_on is not None:
-            self.waiting_on.poisoned = True                      # dies holding the read lock of the task queue
+        if self.state == 'idle' and self.deathbed() is not None:
+            self.deathbed().abandoned(self, killed=True)         # dies where it sleeps (read lock held / registered sleeper)
         if self.state == 'hung' and self.held_q is not None:     # the late answer lands just before the signal
             self.held_q.items.append(_Item(self.held))
             self.held = self.held_q = None
@@ -357,6 +408,8 @@ class FakeProcess(object):
             self.die('exit', code)
         except WorkerDiesBefore:
             self.die('before', -9)
+            if self.deathbed() is not None:
+                self.deathbed().abandoned(self, killed=False)
         except WorkerHang:
             if self.state != 'hung':
                 self.state = 'hung'
